@@ -15,7 +15,7 @@ import (
 func init() { components["rom"] = func(string) { runRom() } }
 
 type romOp struct {
-	kind byte // O R W F
+	kind byte // O R W F S   (S = switch to slot n: several readers / writers of one ROM stay alive side by side)
 	rw   byte // for O: 'r' or 'w'
 	a, n uint32
 	vs   uint32
@@ -29,6 +29,8 @@ func (o romOp) String() string {
 		return fmt.Sprintf("R %x", o.n)
 	case 'W':
 		return fmt.Sprintf("W %x %x", o.n, o.vs)
+	case 'S':
+		return fmt.Sprintf("S %x", o.n)
 	}
 	return "F"
 }
@@ -84,11 +86,15 @@ func execRom(c romCase) (out []string, oracle string) {
 	contents := make([]byte, len(orig))
 	copy(contents, orig)
 	rom := &snes.ROM{Contents: contents, HeaderOffset: 0x7FB0}
-	var rd io.Reader
-	var wr io.Writer
-	var winS, winE uint32
-	var haveWin bool
-	var rpos, wpos uint32
+	type slot struct {
+		rd         io.Reader
+		wr         io.Writer
+		winS, winE uint32
+		haveWin    bool
+		rpos, wpos uint32
+	}
+	slots := map[uint32]*slot{0: {}}
+	cs := slots[0]
 	touched := []uint32{}
 	seen := map[uint32]bool{}
 	out = make([]string, len(c.ops))
@@ -100,51 +106,57 @@ func execRom(c romCase) (out []string, oracle string) {
 				}
 			}()
 			switch o.kind {
+			case 'S':
+				if slots[o.n] == nil {
+					slots[o.n] = &slot{}
+				}
+				cs = slots[o.n]
+				out[i] = "ok"
 			case 'O':
-				rd, wr = nil, nil
-				haveWin = false
+				cs.rd, cs.wr = nil, nil
+				cs.haveWin = false
 				bank, offs := o.a>>16, o.a&0xFFFF
 				var obj interface{}
 				if o.rw == 'r' {
-					rd = rom.BusReader(o.a)
-					obj = rd
+					cs.rd = rom.BusReader(o.a)
+					obj = cs.rd
 				} else {
-					wr = rom.BusWriter(o.a)
-					obj = wr
+					cs.wr = rom.BusWriter(o.a)
+					obj = cs.wr
 				}
 				if offs < 0x8000 {
 					out[i] = "err"
 					return
 				}
-				winS, winE = bank<<15|(offs-0x8000), bank<<15|0x7FFF
-				haveWin = true
-				rpos, wpos = 0, 0
+				cs.winS, cs.winE = bank<<15|(offs-0x8000), bank<<15|0x7FFF
+				cs.haveWin = true
+				cs.rpos, cs.wpos = 0, 0
 				_ = obj
-				out[i] = fmt.Sprintf("win %x %x", winS, winE)
+				out[i] = fmt.Sprintf("win %x %x", cs.winS, cs.winE)
 			case 'R':
-				if rd == nil {
+				if cs.rd == nil {
 					out[i] = "noobj"
 					return
 				}
 				p := make([]byte, o.n)
-				n, err := rd.Read(p)
+				n, err := cs.rd.Read(p)
 				var sb strings.Builder
 				fmt.Fprintf(&sb, "%x %s ", n, errName(err))
 				for _, b := range p[:n] {
 					fmt.Fprintf(&sb, "%02x", b)
 				}
 				out[i] = sb.String()
-				if haveWin {
+				if cs.haveWin {
 					// oracle: bytes come from the window, in order, never beyond the bank end
-					if winS+rpos+uint32(n) > (winS&^0x7FFF)+0x8000 {
+					if cs.winS+cs.rpos+uint32(n) > (cs.winS&^0x7FFF)+0x8000 {
 						oracle = fmt.Sprintf("op %d: reader exposed bytes beyond the end of the 32 KiB bank", i)
 					}
 					for j := 0; j < n; j++ {
-						if p[j] != contents[winS+rpos+uint32(j)] {
+						if p[j] != contents[cs.winS+cs.rpos+uint32(j)] {
 							oracle = fmt.Sprintf("op %d: reader returned a byte that is not image[pcStart+pos+%d]", i, j)
 						}
 					}
-					rpos += uint32(n)
+					cs.rpos += uint32(n)
 					if err == nil && n == 0 && o.n > 0 {
 						oracle = fmt.Sprintf("op %d: Read returned (0, nil) for a non-empty buffer", i)
 					}
@@ -152,7 +164,7 @@ func execRom(c romCase) (out []string, oracle string) {
 					oracle = fmt.Sprintf("op %d: offset below $8000 must fail with unexpected EOF", i)
 				}
 			case 'W':
-				if wr == nil {
+				if cs.wr == nil {
 					out[i] = "noobj"
 					return
 				}
@@ -161,9 +173,9 @@ func execRom(c romCase) (out []string, oracle string) {
 					p[j] = prng.Hash(uint64(o.vs), uint32(j))
 				}
 				before := append([]byte{}, contents...)
-				n, err := wr.Write(p)
+				n, err := cs.wr.Write(p)
 				out[i] = fmt.Sprintf("%x %s", n, errName(err))
-				if !haveWin {
+				if !cs.haveWin {
 					if n != 0 || err != io.ErrUnexpectedEOF {
 						oracle = fmt.Sprintf("op %d: offset below $8000 must fail with unexpected EOF", i)
 					}
@@ -171,11 +183,11 @@ func execRom(c romCase) (out []string, oracle string) {
 					switch {
 					case err == nil && n == len(p):
 						for j := 0; j < n; j++ {
-							a := winS + wpos + uint32(j)
+							a := cs.winS + cs.wpos + uint32(j)
 							if contents[a] != p[j] {
 								oracle = fmt.Sprintf("op %d: written byte %d did not land contiguously at pcStart+o", i, j)
 							}
-							if a >= (winS&^0x7FFF)+0x8000 {
+							if a >= (cs.winS&^0x7FFF)+0x8000 {
 								oracle = fmt.Sprintf("op %d: write landed beyond the bank end", i)
 							}
 							before[a] = p[j]
@@ -184,7 +196,7 @@ func execRom(c romCase) (out []string, oracle string) {
 								touched = append(touched, a)
 							}
 						}
-						wpos += uint32(n)
+						cs.wpos += uint32(n)
 					case err != nil && n == 0:
 					default:
 						oracle = fmt.Sprintf("op %d: silent partial write n=%d len=%d err=%v", i, n, len(p), err)
@@ -294,6 +306,45 @@ func genRomCase(r *prng.R, rep *report.Report) romCase {
 			rep.Count("write then read back")
 		}
 	}
+	// half of the histories keep their objects alive side by side: every object gets its own slot and the operations of
+	// the different objects are interleaved (each object's own order is kept)
+	if r.Bool() {
+		var segs [][]romOp
+		for _, o := range c.ops {
+			if o.kind == 'O' {
+				segs = append(segs, nil)
+			}
+			segs[len(segs)-1] = append(segs[len(segs)-1], o)
+		}
+		if len(segs) > 1 {
+			var merged []romOp
+			cur := -1
+			for {
+				var live []int
+				for i, sg := range segs {
+					if len(sg) > 0 {
+						live = append(live, i)
+					}
+				}
+				if len(live) == 0 {
+					break
+				}
+				i := live[r.N(len(live))]
+				if i != cur {
+					merged = append(merged, romOp{kind: 'S', n: uint32(i)})
+					cur = i
+				}
+				k := 1 + r.N(2)
+				if k > len(segs[i]) {
+					k = len(segs[i])
+				}
+				merged = append(merged, segs[i][:k]...)
+				segs[i] = segs[i][k:]
+			}
+			c.ops = merged
+			rep.Count("objects interleaved")
+		}
+	}
 	c.ops = append(c.ops, romOp{kind: 'F'})
 	return c
 }
@@ -325,6 +376,8 @@ func runRom() {
 		{0x10000, 1, []romOp{{kind: 'O', rw: 'r', a: 0x00FFFF}, {kind: 'R', n: 2}, {kind: 'O', rw: 'r', a: 0x00FFFE}, {kind: 'R', n: 2}, {kind: 'R', n: 1}, {kind: 'F'}}},
 		{0x10000, 2, []romOp{{kind: 'O', rw: 'w', a: 0x017FFF}, {kind: 'W', n: 1, vs: 3}, {kind: 'O', rw: 'r', a: 0x007FFF}, {kind: 'R', n: 1}, {kind: 'F'}}},
 	}
+	cases = append(cases, romCase{0x18000, 1, []romOp{{kind: 'O', rw: 'r', a: 0x00FFF0}, {kind: 'R', n: 2}, {kind: 'S', n: 1}, {kind: 'O', rw: 'r', a: 0x018000}, {kind: 'R', n: 3},
+		{kind: 'S', n: 0}, {kind: 'R', n: 4}, {kind: 'S', n: 2}, {kind: 'O', rw: 'w', a: 0x00FFF4}, {kind: 'W', n: 3, vs: 5}, {kind: 'S', n: 0}, {kind: 'R', n: 0x20}, {kind: 'R', n: 1}, {kind: 'F'}}})
 	for i := 0; i < n; i++ {
 		cases = append(cases, genRomCase(r.Fork(), rep))
 	}
@@ -373,7 +426,7 @@ func runRom() {
 	rep.Distinct = int64(len(distinct))
 	rep.CountN("cases", int64(len(cases)))
 	rep.Rule = "random reader/writer histories on images of 32 KiB..256 KiB (thorough: up to 4 MiB): offsets below $8000, at $8000, within 6 bytes of the bank end; " +
-		"read/write lengths 0, remaining-1, remaining, remaining+1..3 and small; write-then-read-back; banks outside the image; whole image compared after every write. " +
+		"half of the histories interleave the operations of several live readers / writers of the same ROM; read/write lengths 0, remaining-1, remaining, remaining+1..3 and small; write-then-read-back; banks outside the image; whole image compared after every write. " +
 		"evaluations = operations; distinct_nontrivial = distinct (op kind, reply prefix) sequences"
 	rep.Emit()
 }
